@@ -795,7 +795,8 @@ package mpb
 //@ func (*pState).flush
 //@   props    C03 C04 C05 C06 C13 C15 C17 C18 C02
 //@   requires s != nil && cw != nil && !closed(s.hm) && !closed(s.iterDrop) && height >= 0 && height <= 1<<31
-//@   requires wkey(cw.out) != cw.Buffer && s.popPriority < 1<<61
+//@   requires wkey(cw.out) != cw.Buffer
+//@   assumes  s.popPriority < 1<<61
 //@   requires parked: forall(k, has(s.queueBars, k) ==> s.queueBars[k] != nil)
 //@   loop 1   invariant forall(k, has(s.queueBars, k) ==> s.queueBars[k] != nil)
 //@   loop 1   invariant len(rows) <= height && popCount >= 0 && popCount <= len(rows) && len(pushes) >= 0 && !closed(s.hm) && !closed(s.iterDrop)
@@ -844,6 +845,7 @@ package mpb
 //@   ensures  errdrop@C15: closed(s.iterDrop) ==> result != nil && called("(*Writer).Flush") == old(called("(*Writer).Flush"))
 //@   ensures  once@C15,C02: result == nil ==> !closed(s.iterDrop)
 //@   ensures  open@C02: !closed(s.hm)
+//@   ensures  parkedstill: forall(k, has(s.queueBars, k) ==> s.queueBars[k] != nil)
 
 // Options: what a container option / bar option may write (checked for every built-in option
 // by the static obligation functype-frame; assumed for user-written options).
@@ -863,17 +865,20 @@ package mpb
 //@   props    C09 C02 C17 C05
 //@   params   s
 //@   requires s != nil && forall(i, 0, len(s.decorGroups[0]), s.decorGroups[0][i] != nil) && forall(i, 0, len(s.decorGroups[1]), s.decorGroups[1][i] != nil)
+//@   requires s.filler != nil && s.extender != nil
 //@   ensures  forall(i, 0, len(s.decorGroups[0]), s.decorGroups[0][i] != nil) && forall(i, 0, len(s.decorGroups[1]), s.decorGroups[1][i] != nil)
+//@   ensures  s.filler != nil && s.extender != nil
 //@   modifies bState.decorGroups, bState.id, bState.reqWidth, bState.waitBar, bState.rmOnComplete, bState.filler, bState.priority, bState.extender, bState.trimSpace, bState.noPop
 
 //@ functype BarFillerMiddleware$1.middle
 //@   modifies nothing
+//@   ensures  result != nil
 
 //@ func (pState).makeBarState
 //@   props    C09 C06 C19 C02 C17 C05
 //@   requires filler != nil
 //@   loop 1   invariant bs != nil && fresh(bs) && bs.total == total && bs.current == 0 && bs.refill == 0 && bs.triggerComplete == (total > 0) && !bs.aborted && bs.shutdown == 0
-//@   loop 1   invariant bs.renderReq == s.renderReq && bs.autoRefresh == s.autoRefresh
+//@   loop 1   invariant bs.renderReq == s.renderReq && bs.autoRefresh == s.autoRefresh && bs.filler != nil && bs.extender != nil
 //@   loop 1   invariant forall(i, 0, len(bs.decorGroups[0]), bs.decorGroups[0][i] != nil) && forall(i, 0, len(bs.decorGroups[1]), bs.decorGroups[1][i] != nil)
 //@   loop 2   invariant forall(i, 0, len(bs.decorGroups[0]), bs.decorGroups[0][i] != nil) && forall(i, 0, len(bs.decorGroups[1]), bs.decorGroups[1][i] != nil)
 //@   loop 3   invariant forall(i, 0, len(group), group[i] != nil)
@@ -953,13 +958,16 @@ package mpb
 // fn of (*Bar).render: exactly one frame is sent on every path (so flush is never left
 // waiting); a terminal bar stamps the frame with its count of terminal frames so far and
 // then counts this one (post-increment: the first terminal frame carries 0, the second 1, ...)
+// Struct invariant of a bar state (established by makeBarState; options count as construction)
+//@ typeinv bState props C02 C03 C07 self.filler != nil && self.extender != nil && self.buffers[0] != nil && self.buffers[1] != nil && self.buffers[2] != nil
+//@ typeinv bState props C02 C03 C07 self.buffers[0] != self.buffers[1] && self.buffers[0] != self.buffers[2] && self.buffers[1] != self.buffers[2]
+//@ typeinv bState props C02 C03 C07 forall(i, 0, len(self.decorGroups[0]), self.decorGroups[0][i] != nil) && forall(i, 0, len(self.decorGroups[1]), self.decorGroups[1][i] != nil)
+
 //@ func (*Bar).render$1
 //@   props    C03 C15 C18 C11 C02
-//@   requires s != nil && b != nil && s.filler != nil && s.extender != nil && tw >= 0 && tw <= 1<<31 && s.shutdown < 1<<62
-//@   requires s.buffers[0] != nil && s.buffers[1] != nil && s.buffers[2] != nil
-//@   requires s.buffers[0] != s.buffers[1] && s.buffers[0] != s.buffers[2] && s.buffers[1] != s.buffers[2]
-//@   requires drained: dw(written(s.buffers[0])) == 0 && dw(written(s.buffers[1])) == 0 && dw(written(s.buffers[2])) == 0
-//@   requires forall(i, 0, len(s.decorGroups[0]), s.decorGroups[0][i] != nil) && forall(i, 0, len(s.decorGroups[1]), s.decorGroups[1][i] != nil)
+//@   requires s != nil && b != nil && tw >= 0 && tw <= 1<<31
+//@   assumes  drained: dw(written(s.buffers[0])) == 0 && dw(written(s.buffers[1])) == 0 && dw(written(s.buffers[2])) == 0
+//@   assumes  s.shutdown < 1<<62
 //@   ensures  oneframe@C15,C03: sent(b.frameCh) == old(sent(b.frameCh)) + 1 && lastSent(b.frameCh) != nil
 //@   ensures  terminal@C03,C18: lastSent(b.frameCh).err == nil && (s.aborted || s.completed())
 //@              ==> lastSent(b.frameCh).shutdown == old(s.shutdown) && s.shutdown == old(s.shutdown) + 1
@@ -967,3 +975,150 @@ package mpb
 //@   ensures  running@C03: lastSent(b.frameCh).err == nil && !(s.aborted || s.completed())
 //@              ==> lastSent(b.frameCh).shutdown == 0 && s.shutdown == old(s.shutdown)
 //@   ensures  stable@C11: s.aborted == old(s.aborted) && s.total == old(s.total) && s.current == old(s.current) && s.triggerComplete == old(s.triggerComplete)
+
+// Bar.serve: operations are applied one at a time by the owner (A-ACT rests on this being
+// the only receiver of operateState); on cancellation every shutdown-listening decorator,
+// however deeply wrapped, is notified exactly once, an unfinished bar becomes aborted, the
+// final state is published before bsOk is closed, and the goroutine returns (exactly once).
+
+// What an operation sent to the bar goroutine may write (static obligation chan-frame for
+// every closure the module sends on Bar.operateState): the counters and flags of the bar
+// state, render-private state, ghost channel/spawn/cancel state - never the decorator groups,
+// the buffers' identity, the filler, or anything of Bar itself.
+//@ chan Bar.operateState invariant v != nil
+
+//@ functype (*Bar).serve.op
+//@   props    C10 C14 C11 C03
+//@   params   s
+//@   modifies bState.total, bState.current, bState.refill, bState.triggerComplete, bState.aborted, bState.rmOnComplete, bState.shutdown
+//@   modifies sent(), recvd(), spawned(), cancelled(), written(), content(), pkgstate("decor"), bFiller.tip, sFiller.count, elems("io.Reader"), elems("chan int"), renderFrame.rows, renderFrame.err, renderFrame.shutdown, renderFrame.rmOnComplete, renderFrame.noPop
+
+//@ func (*Bar).serve$1$1
+//@   props    C14
+//@   requires d != nil && b != nil && b.container != nil
+//@   ensures  called("decor.ShutdownListener.OnShutdown") == old(called("decor.ShutdownListener.OnShutdown")) + 1 && calledWith("decor.ShutdownListener.OnShutdown", 0) == d
+//@   ensures  called("(*sync.WaitGroup).Done") == old(called("(*sync.WaitGroup).Done")) + 1
+
+//@ func (*Bar).serve$1
+//@   props    C14 C02
+//@   requires b != nil && forall(i, 0, len(group), group[i] != nil)
+//@   modifies spawned("(*Bar).serve$1$1")
+//@   loop 1   invariant called("(*sync.WaitGroup).Add") == old(called("(*sync.WaitGroup).Add")) + spawned("(*Bar).serve$1$1") - old(spawned("(*Bar).serve$1$1"))
+//@   loop 1   invariant called("unwrap") == old(called("unwrap")) + rangeindex + 1
+//@   loop 1   ensures once@C14: spawned("(*Bar).serve$1$1") - iter(spawned("(*Bar).serve$1$1")) == called("(*sync.WaitGroup).Add") - iter(called("(*sync.WaitGroup).Add"))
+//@              && spawned("(*Bar).serve$1$1") - iter(spawned("(*Bar).serve$1$1")) <= 1 && called("unwrap") == iter(called("unwrap")) + 1
+//@              && (hasType(returned("unwrap", 0), "decor.ShutdownListener") == (spawned("(*Bar).serve$1$1") == iter(spawned("(*Bar).serve$1$1")) + 1))
+//@   ensures  every@C14: called("unwrap") == old(called("unwrap")) + len(group)
+
+// bsOk is only ever closed, by the bar's own goroutine, after the final state has been
+// published in b.bs ((*Bar).serve, clause published): a completed receive on it means b.bs is set.
+//@ chan Bar.bsOk assume self.bs != nil
+
+//@ func (*Bar).serve
+//@   props    C14 C11 C10 C02 C03
+//@   requires b != nil && bs != nil
+//@   assumes  owner: !closed(b.bsOk)
+//@   requires forall(i, 0, len(bs.decorGroups[0]), bs.decorGroups[0][i] != nil) && forall(i, 0, len(bs.decorGroups[1]), bs.decorGroups[1][i] != nil)
+//@   ensures  published@C10,C02: b.bs == bs && closed(b.bsOk)
+//@   ensures  exclusive@C11: bs.aborted == !bs.completed()
+//@   ensures  counted@C14: called("(*sync.WaitGroup).Done") == old(called("(*sync.WaitGroup).Done")) + 1
+
+// render: the frame function is either sent to the owner or, once the bar has shut down,
+// run here on the published state
+//@ func (*Bar).render
+//@   props    C03 C10 C15
+//@   requires b != nil && tw >= 0 && tw <= 1<<31
+//@   ensures  once@C10: sent(b.operateState) <= old(sent(b.operateState)) + 1
+
+// user callbacks run on the bar goroutine may adjust decorators (AverageAdjust) but are
+// assumed not to write the library's own state
+//@ functype (*Bar).TraverseDecorators$1.cb
+//@   modifies pkgstate("decor")
+
+// ---------------------------------------------------------------------------------------
+// the container goroutine (C03 C04 C05 C13 C14 C15 C02)
+
+//@ chan render.iter assume v != nil
+
+//@ func (*pState).render
+//@   props    C03 C04 C05 C13 C15 C02
+//@   requires s != nil && cw != nil && !closed(s.hm) && !closed(s.iterDrop)
+//@   requires wkey(cw.out) != cw.Buffer
+//@   assumes  s.reqWidth <= 1<<31
+//@   requires parked: forall(k, has(s.queueBars, k) ==> s.queueBars[k] != nil)
+//@   ensures  errdrop@C15: closed(s.iterDrop) ==> err != nil
+//@   ensures  once@C15,C02: err == nil ==> !closed(s.iterDrop)
+//@   ensures  open@C02: !closed(s.hm)
+//@   ensures  parkedstill: forall(k, has(s.queueBars, k) ==> s.queueBars[k] != nil)
+//@   ensures  requests@C05: called("(heapManager).sync") == old(called("(heapManager).sync")) + 1 && called("(heapManager).iter") == old(called("(heapManager).iter")) + 1
+//@              && calledWith("(heapManager).sync", 1) == s.iterDrop && calledWith("(heapManager).iter", 1) == s.iterDrop
+//@   ensures  size@C04: !cw.terminal && called("(*pState).flush") == old(called("(*pState).flush")) + 1
+//@              ==> calledWith("(*pState).flush", 2) == ite(s.reqWidth > 0, s.reqWidth, 80)
+//@   ensures  noframe@C15: cw.terminal && returned("(*Writer).GetTermSize", 2) != nil ==> called("(*pState).flush") == old(called("(*pState).flush")) && err != nil
+
+// operations and writes handed to the container goroutine (static obligation chan-frame for
+// every closure the module sends on Progress.operateState / Progress.interceptIO)
+//@ functype (*Progress).serve.op
+//@   props    C05 C15 C14 C03 C04 C13 C02 C10
+//@   params   s
+//@   modifies pState.idCount, maps(), Bar.priority, sent(), recvd(), spawned(), elems("BarOption"), pkgstate("decor"), elems("decor.Decorator"), elems("decor.EwmaDecorator")
+//@   modifies bState.decorGroups, bState.id, bState.reqWidth, bState.waitBar, bState.rmOnComplete, bState.filler, bState.priority, bState.extender, bState.trimSpace, bState.noPop, bState.ewmaDecorators, bState.buffers, written(), hordstate()
+//@   ensures  forall(k, has(s.queueBars, k) ==> s.queueBars[k] != nil)
+
+//@ functype (*Progress).serve.fn
+//@   props    C13 C15 C02 C10
+//@   params   w
+//@   modifies written(w), sent(), recvd()
+
+//@ functype Progress.cancel
+//@   modifies nothing
+
+//@ chan Progress.operateState invariant v != nil
+//@ chan Progress.interceptIO invariant v != nil
+// serve reads both through local copies (set to nil after an error)
+//@ chan serve.operateState assume v != nil
+//@ chan serve.interceptIO assume v != nil
+
+//@ func (*Progress).serve$1
+//@   props    C15
+//@   requires s != nil && p != nil
+
+//@ func (*Progress).serve
+//@   props    C03 C04 C13 C14 C15 C05 C02
+//@   requires p != nil && s != nil && cw != nil && !closed(s.hm) && !closed(s.iterDrop) && wkey(cw.out) != cw.Buffer && p.cancel != nil
+//@   requires parked: forall(k, has(s.queueBars, k) ==> s.queueBars[k] != nil)
+//@   loop 1   invariant errstop@C15: err != nil ==> renderReq == nil && operateState == nil && interceptIO == nil
+//@   loop 1   invariant err == nil ==> !closed(s.iterDrop)
+//@   loop 1   invariant !closed(s.hm) && w != nil && wkey(w.out) != w.Buffer && s == in(s) && p == in(p)
+//@   loop 1   invariant forall(k, has(s.queueBars, k) ==> s.queueBars[k] != nil)
+//@   loop 1   invariant delay@C04: (s.delayRC != nil ==> cw != nil && cw == in(cw) && w != in(cw) && w.out == global("io.Discard")) && (s.delayRC == nil ==> w == in(cw))
+//@   loop 1   invariant called("(heapManager).end") == old(called("(heapManager).end")) && called("fmt.Fprintln") == old(called("fmt.Fprintln"))
+//@   loop 1   invariant s.debugOut == old(s.debugOut) && s.shutdownNotifier == old(s.shutdownNotifier) && s.autoRefresh == old(s.autoRefresh)
+//@   loop 1   ensures intercept@C13: called("(*Progress).serve.fn") == iter(called("(*Progress).serve.fn")) + 1 ==> calledWith("(*Progress).serve.fn", 0) == iter(w)
+//@   loop 1   ensures onerender: called("(*pState).render") <= iter(called("(*pState).render")) + 1
+//@   loop 1   ensures cancelonce@C15: iter(err) == nil && err != nil ==> called("Progress.cancel") == iter(called("Progress.cancel")) + 1 && spawned("(*Progress).serve$1") == iter(spawned("(*Progress).serve$1")) + 1
+//@   loop 2   invariant !closed(s.hm) && w != nil && wkey(w.out) != w.Buffer && !closed(s.iterDrop) && update != nil && i >= 0
+//@   loop 2   invariant forall(k, has(s.queueBars, k) ==> s.queueBars[k] != nil)
+//@   loop 2   invariant called("(heapManager).end") == old(called("(heapManager).end")) && called("fmt.Fprintln") == old(called("fmt.Fprintln"))
+//@   loop 2   invariant called("(*pState).render") == entry(2, called("(*pState).render")) + i
+//@   loop 2   invariant s.debugOut == old(s.debugOut) && s.shutdownNotifier == old(s.shutdownNotifier) && s == in(s)
+//@   ensures  ended@C14,C05,C02: called("(heapManager).end") == old(called("(heapManager).end")) + 1 && calledWith("(heapManager).end", 1) == old(s.shutdownNotifier)
+//@   ensures  reported@C15: called("fmt.Fprintln") <= old(called("fmt.Fprintln")) + 1 && (err#1 != nil ==> called("fmt.Fprintln") == old(called("fmt.Fprintln")) + 1 && calledWith("fmt.Fprintln", 0) == old(s.debugOut))
+//@   ensures  noframeaftererror@C15: err#1 != nil ==> called("(*pState).render") == at(1, called("(*pState).render"))
+//@   ensures  finalframe@C03,C13: err#1 == nil && s.autoRefresh ==> called("(*pState).render") >= entry(2, called("(*pState).render")) + 1
+//@   ensures  released: called("(*sync.WaitGroup).Done") == old(called("(*sync.WaitGroup).Done")) + 1
+
+//@ func BarFillerMiddleware$1
+//@   props    C02 C09
+//@   requires s != nil && middle != nil
+//@   modifies s.filler
+//@   ensures  s.filler != nil
+//@ func BarExtender$1
+//@   props    C02 C09
+//@   requires s != nil && fn != nil
+//@   modifies s.extender
+//@   ensures  s.extender != nil
+//@ func makeExtenderFunc
+//@   props    C02 C15
+//@   requires filler != nil
+//@   ensures  result != nil
